@@ -11,6 +11,17 @@ type vStoreM struct {
 	nodes int
 	mem   int64
 	dead  int // linked nodes whose item carries a deadSn
+	dist  [skiplist.MaxLevel + 1]int64
+}
+
+// vDistOK: the per-level node counts behind NodeCount equal what the walk measured (a node is counted on its
+// own level when inserted and must be taken off the same level when unlinked).
+func vDistOK(st *skiplist.StatsReport, m *vStoreM) bool {
+	ok := true
+	for l := 0; l <= skiplist.MaxLevel; l++ {
+		ok = vAnd(ok, st.NodeDistribution[l] == m.dist[l])
+	}
+	return ok
 }
 
 func vStoreWalk(db *Nitro) (m vStoreM) {
@@ -20,6 +31,7 @@ func vStoreWalk(db *Nitro) (m vStoreM) {
 		n := it.GetNode()
 		m.nodes++
 		m.mem += int64(db.store.Size(n))
+		m.dist[n.Level()]++
 		if (*Item)(n.Item()).deadSn != 0 {
 			m.dead++
 		}
@@ -112,6 +124,7 @@ func H_C06() {
 	vAssert(m.dead == 0, "completeness: no dead version remains linked")
 	st := db.aggrStoreStats()
 	vAssert(st.NodeCount == model.count(), "node_count equals live items")
+	vAssert(vDistOK(&st, &m), "per-level node counts equal the walk")
 	vAssert(st.SoftDeletes == 0, "soft_deletes is zero at quiescence")
 	vAssert(st.Memory == m.mem, "store memory equals the sum over linked nodes and items")
 	vAssert(db.MemoryInUse() == m.mem, "MemoryInUse equals what the live items account for (snapshot lists empty)")
